@@ -23,6 +23,10 @@ var (
 	replayBin  string
 	replayErr  error
 	replayDir  string
+
+	raceOnce sync.Once
+	raceBin  string
+	raceErr  error
 )
 
 var reHarness = regexp.MustCompile(`(?m)^func (VH_[A-Za-z0-9_]+)\(\)`)
@@ -75,6 +79,56 @@ func buildReplayBinary() (string, error) {
 		replayBin = bin
 	})
 	return replayBin, replayErr
+}
+
+// buildRaceBinary: the same test binary built with the race detector.
+func buildRaceBinary() (string, error) {
+	if _, err := buildReplayBinary(); err != nil {
+		return "", err
+	}
+	raceOnce.Do(func() {
+		bin := filepath.Join(replayDir, "replay-race.test")
+		cmd := exec.Command("go", "test", "-c", "-race", "-tags", "verif", "-vet=off", "-overlay", filepath.Join(replayDir, "overlay.json"), "-o", bin, ".")
+		cmd.Dir = repoDir
+		cmd.Env = append(os.Environ(), "GOFLAGS=-mod=mod", "GOPROXY=off", "GOSUMDB=off", "GOTOOLCHAIN=local", "CGO_ENABLED=1")
+		out, err := cmd.CombinedOutput()
+		if err != nil {
+			raceErr = fmt.Errorf("building race replay binary: %v\n%s", err, out)
+			return
+		}
+		raceBin = bin
+	})
+	return raceBin, raceErr
+}
+
+// replayRace runs the harness natively under the race detector; reproduced iff a data race is reported.
+func replayRace(harness string, inputs map[string]interface{}) (bool, string) {
+	bin, err := buildRaceBinary()
+	if err != nil {
+		return false, err.Error()
+	}
+	jobs := []map[string]interface{}{{"id": "j", "harness": harness, "inputs": inputs}}
+	jb, _ := json.Marshal(jobs)
+	jf, err := os.CreateTemp(replayDir, "job*.json")
+	if err != nil {
+		return false, err.Error()
+	}
+	jf.Write(jb)
+	jf.Close()
+	defer os.Remove(jf.Name())
+	cmd := exec.Command(bin, "-test.run", "^TestVXReplay$", "-test.count=1", "-test.timeout=300s")
+	cmd.Dir = repoDir
+	cmd.Env = append(os.Environ(), "VX_REPLAY_FILE="+jf.Name(), "GORACE=halt_on_error=0")
+	out, _ := cmd.CombinedOutput()
+	if strings.Contains(string(out), "WARNING: DATA RACE") {
+		i := strings.Index(string(out), "WARNING: DATA RACE")
+		s := string(out)[i:]
+		if len(s) > 600 {
+			s = s[:600]
+		}
+		return true, s
+	}
+	return false, "no data race reported by the race detector"
 }
 
 func cleanupReplay() {
